@@ -151,6 +151,17 @@ def world(ctx, rng_seed, m, ps, origin, kshape, shared=None):
     cshift = r.uniform(-0.7, 0.7, size=2) * np.array(ps)
     run("Grid2D.grid_2d_radial_projected_from", lambda: ob.coord("Grid2D.grid_2d_radial_projected_from", "radial_projected",
         aa.Grid2D.from_mask(mask=mask).grid_2d_radial_projected_from(centre=tuple(o + cshift), angle=float(r.uniform(0, 180)))))
+    if shared is not None and "first_origin" in shared:
+        # ... and from the point that is the absolute coordinate (0.0, 0.0) in the first of the two worlds (a centre the caller gives
+        # explicitly; in the translated world it is the point d)
+        c0 = o - np.asarray(shared["first_origin"], dtype=float)
+        def radial_from_absolute_zero():
+            g_ = aa.Grid2D.from_mask(mask=mask)
+            ob.coord("Grid2D.grid_2d_radial_projected_from", "radial_projected.centre_at_absolute_zero_in_first_world",
+                     g_.grid_2d_radial_projected_from(centre=(float(c0[0]), float(c0[1])), angle=0.0))
+            ob.inv("Grid2D.grid_2d_radial_projected_from", "radial_projected_shape_slim.centre_at_absolute_zero_in_first_world",
+                   np.array(g_.grid_2d_radial_projected_shape_slim_from(centre=(float(c0[0]), float(c0[1])))))
+        run("Grid2D.grid_2d_radial_projected_from", radial_from_absolute_zero)
     oshape = (int(r.integers(2, 6)), int(r.integers(2, 6)))
     # the overlay keeps the points whose pixel is unmasked: an overlay point exactly on a pixel boundary is a floating-point
     # tie (either pixel acceptable, may flip under translation) -> the whole overlay result of this world is don't-care
@@ -453,6 +464,7 @@ def run_pair(ctx, i):
     aa = ctx.aa
     shared = {"uniform": aa.OverSamplingUniform(sub_size=int(rng.integers(1, 4)))}
     shared["dataset"] = aa.OverSamplingDataset(uniform=aa.OverSamplingUniform(sub_size=2), pixelization=aa.OverSamplingUniform(sub_size=int(rng.integers(1, 4))))
+    shared["first_origin"] = tuple(float(v) for v in o)
     a = world(ctx, seed, m, ps, tuple(o), (ky, kx), shared)
     b = world(ctx, seed, m, ps, tuple(o + d), (ky, kx), shared)
     scale = max(max(ps), float(np.abs(d).max()), float(np.abs(o).max()), float(np.abs(o + d).max()))
